@@ -84,6 +84,123 @@ class Stub:
         return f'<Stub {self._stub_name}>'
 
 
+class _GenClose(BaseException):
+    pass
+
+
+class GenObject:
+    """A generator of the interpreted program.  The body runs in its own thread that alternates STRICTLY with the
+    consumer (hand-off by two semaphores - never concurrently), so the interpreter's single path state is shared
+    safely and side effects of producer and consumer interleave exactly as in CPython."""
+
+    def __init__(self, it, body_thunk, name):
+        import threading
+        self.it, self.body_thunk, self.name = it, body_thunk, name
+        self.started = self.done = self.closed = False
+        self.to_gen, self.to_con = threading.Semaphore(0), threading.Semaphore(0)
+        self.msg = None
+        it.live_gens.append(self)
+
+    def __repr__(self):
+        return f'<pyvc generator {self.name}>'
+
+    def _run(self):
+        self.to_gen.acquire()
+        GEN_TLS.current = self
+        try:
+            if self.closed:
+                msg = ('end', None)
+            else:
+                try:
+                    msg = ('end', self.body_thunk())
+                except _GenClose:
+                    msg = ('end', None)
+                except BaseException as ex:       # RaiseEx / PathDead / Unsupported: re-raised in the consumer
+                    msg = ('exc', ex)
+        finally:
+            GEN_TLS.current = None
+        self.done = True
+        self.msg = msg
+        self.to_con.release()
+
+    def next(self):
+        import threading
+        if self.done:
+            raise RaiseEx(StopIteration())
+        if not self.started:
+            self.started = True
+            t = threading.Thread(target=self._run, daemon=True)
+            t.start()
+        depth = self.it.depth
+        self.to_gen.release()
+        self.to_con.acquire()
+        self.it.depth = depth
+        kind, v = self.msg
+        if kind == 'yield':
+            return v
+        self.done = True
+        if kind == 'end':
+            raise RaiseEx(StopIteration(v))
+        raise v
+
+    def emit(self, v):
+        """called in the generator's thread at a `yield`"""
+        self.msg = ('yield', v)
+        self.to_con.release()
+        self.to_gen.acquire()
+        if self.closed:
+            raise _GenClose()
+        return None                                 # generator.send() is outside the subset
+
+    def close(self):
+        if self.done:
+            return
+        self.closed = True
+        if self.started:
+            self.to_gen.release()
+            self.to_con.acquire()
+        self.done = True
+
+    def drain(self):
+        out = []
+        while True:
+            try:
+                out.append(self.next())
+            except RaiseEx as e:
+                if isinstance(e.exc, StopIteration):
+                    return out
+                raise
+            if len(out) > self.it.MAX_CONCRETE_ITER:
+                raise Unsupported('iteration bound')
+
+
+class _Tls:
+    pass
+
+
+import threading as _threading
+GEN_TLS = _threading.local()
+_gen_fn_cache = {}
+
+
+def is_generator_node(node):
+    """does this def contain a yield of its own (not one of a nested def / lambda)?"""
+    k = id(node)
+    if k not in _gen_fn_cache:
+        found = False
+        stack = list(getattr(node, 'body', [])) if not isinstance(node, ast.Lambda) else []
+        while stack and not found:
+            n = stack.pop()
+            if isinstance(n, (ast.Yield, ast.YieldFrom)):
+                found = True
+            elif isinstance(n, (ast.FunctionDef, ast.AsyncFunctionDef, ast.Lambda, ast.ClassDef)):
+                continue
+            else:
+                stack.extend(ast.iter_child_nodes(n))
+        _gen_fn_cache[k] = (found, node)
+    return _gen_fn_cache[k][0]
+
+
 class Path:
     def __init__(self, prefix):
         self.prefix = list(prefix)
@@ -325,6 +442,7 @@ class Interp:
         self.interpreted = set()          # qualified names of repo functions whose bodies were interpreted
         self.loop_contracts = {}          # (qualname, ordinal) -> LoopContract
         self.call_contracts = {}          # function object -> ModelFn (call-by-contract)
+        self.live_gens = []               # generators of the interpreted program (closed at the end of every path)
         self.track_attrs = False
         self.solver_calls = 0
         self.solver_time = 0.0
@@ -360,13 +478,23 @@ class Interp:
             except RaiseEx as e:
                 out = ('raise', e.exc)
             except PathDead:
+                self._close_gens()
                 continue
             except Unsupported as e:
                 out = ('unsupported', f'{type(e).__name__}: {e}')
             except RecursionError:
                 out = ('unsupported', 'interpreter recursion limit')
+            self._close_gens()
             results.append((self.path, out))
         return results
+
+    def _close_gens(self):
+        gens, self.live_gens = self.live_gens, []
+        for g in gens:
+            try:
+                g.close()
+            except BaseException:       # noqa  (unwinding a suspended generator on a finished path)
+                pass
 
     def assume(self, c):
         """add a fact to the path condition (contract `requires`, callee `ensures`)"""
@@ -514,6 +642,7 @@ class Interp:
         if isinstance(getattr(f, '__self__', None), BaseException) or \
                 (isinstance(getattr(f, '__objclass__', None), type) and issubclass(f.__objclass__, BaseException)):
             args = [self.msg_arg(a) for a in args]        # exception message text is dropped (DESIGN 2.6)
+        args = [a.drain() if isinstance(a, GenObject) else a for a in args]
         direct = any(is_sym(a) or isinstance(a, SymObject) for a in args) or \
             any(is_sym(a) or isinstance(a, SymObject) for a in kwargs.values())
         if direct and getattr(f, '__module__', '') not in ('inspect', 'functools'):
@@ -633,6 +762,14 @@ class Interp:
             env.ifunc = f
         if isinstance(node, ast.Lambda):
             return self.ev(node.body, env)
+        if is_generator_node(node):
+            def body():
+                try:
+                    self.block(node.body, env)
+                except ReturnEx as r:
+                    return r.v
+                return None
+            return GenObject(self, body, getattr(node, 'name', '<gen>'))
         try:
             self.block(node.body, env)
         except ReturnEx as r:
@@ -749,6 +886,8 @@ class Interp:
             raise Unsupported('iteration over symbolic value')
         if isinstance(it, models.SymSeq):
             return it.iterate(self)
+        if isinstance(it, GenObject):
+            return it.drain()
         if isinstance(it, (list, tuple)):
             return list(it)
         if isinstance(it, (str, dict, set, frozenset, range, types.GeneratorType)) or \
@@ -791,6 +930,8 @@ class Interp:
         lc = self.find_loop_contract(s, env)
         if lc is not None:
             return lc.run_for(self, s, env, it)
+        if isinstance(it, GenObject):
+            return self._for_generator(s, env, it)
         items = self.iterate(it)
         broke = False
         for x in items:
@@ -802,6 +943,35 @@ class Interp:
                 break
             except ContinueEx:
                 continue
+        if not broke:
+            self.block(s.orelse, env)
+
+    def _for_generator(self, s, env, gen):
+        """`for` over an interpreted generator pulls one item at a time (the producer's side effects interleave with the
+        loop body as in CPython); the generator is closed when the loop is left"""
+        broke = False
+        try:
+            while True:
+                try:
+                    x = gen.next()
+                except RaiseEx as e:
+                    if isinstance(e.exc, StopIteration):
+                        break
+                    raise
+                self.assign(s.target, x, env)
+                try:
+                    self.block(s.body, env)
+                except BreakEx:
+                    broke = True
+                    break
+                except ContinueEx:
+                    continue
+        finally:
+            if not gen.done:
+                try:
+                    gen.close()
+                except BaseException:       # noqa
+                    pass
         if not broke:
             self.block(s.orelse, env)
 
@@ -1507,9 +1677,28 @@ class Interp:
         return v
 
     def e_Yield(self, e, env):
-        raise Unsupported('generator function')
+        g = getattr(GEN_TLS, 'current', None)
+        if g is None:
+            raise Unsupported('yield outside an interpreted generator')
+        return g.emit(self.ev(e.value, env) if e.value is not None else None)
 
-    e_YieldFrom = e_Yield
+    def e_YieldFrom(self, e, env):
+        g = getattr(GEN_TLS, 'current', None)
+        if g is None:
+            raise Unsupported('yield outside an interpreted generator')
+        src = self.ev(e.value, env)
+        if isinstance(src, GenObject):
+            while True:
+                try:
+                    v = src.next()
+                except RaiseEx as ex:
+                    if isinstance(ex.exc, StopIteration):
+                        return ex.exc.value
+                    raise
+                g.emit(v)
+        for v in self.iterate(src):
+            g.emit(v)
+        return None
 
 
 def _as_load(t):
